@@ -25,8 +25,8 @@ def run(idx, rep, tier):
     simplex.r_planes(idx, rep)
     simplex.r_solverdispatch(idx, rep)
     simplex.r_weightrole(idx, rep)
-    buffers.r_compact(idx, rep, modules={J}, floor=3)
-    loops.r_loop(idx, rep, [J], floor=4)
+    buffers.r_compact(idx, rep, modules={J}, floor=2)
+    loops.r_loop(idx, rep, [J], floor=2)
     clip.r_clipguard(idx, rep)
     runmin.r_runmin(idx, rep, [J], floor=2)
     ericson.r_ericson(idx, rep)
